@@ -10,6 +10,7 @@ import (
 	"go/token"
 	"go/types"
 	"reflect"
+	"sort"
 	"strings"
 
 	"golang.org/x/tools/go/ssa"
@@ -29,7 +30,7 @@ func init() {
 		Tech:        "static analysis: struct tags and constants from go/types, constant-folded format strings, slice-shape agreement of writer and reader on SSA, struct-to-struct field mapping",
 		NeedU1:      true,
 		NeedU2:      true,
-		Rules:       []func(*Ctx){ruleC18Tags, ruleC18GCMLayout, ruleC18KeyIDs, ruleC13FieldFidelity, ruleC18ProtoMapping},
+		Rules:       []func(*Ctx){ruleC18Tags, ruleC18GCMLayout, ruleC18KeyIDs, ruleC18KeyIDOperands, ruleC13FieldFidelity, ruleC18ProtoMapping},
 	})
 }
 
@@ -407,6 +408,99 @@ func ruleC18KeyIDs(c *Ctx) {
 			c.check(format == w.format && reflect.DeepEqual(fields, w.fields), key, u.ipos(r), fmt.Sprintf("%q %v", format, fields),
 				fmt.Sprintf("key id is built as %q %v, documented %q %v: existing key tables and other language SDKs use the documented ids", format, fields, w.format, w.fields))
 		}
+	}
+}
+
+// ruleC18KeyIDOperands: the operands really are what their names say — the partition constructors fill id/service/
+// product/suffix from their namesake parameters, and the factory passes (partition id, Config.Service, Config.Product
+// [, metastore region suffix]) in that order.
+func ruleC18KeyIDOperands(c *Ctx) {
+	u := c.U1
+	c.rule("C18.key-id-operands", "newPartition/newSuffixedPartition store their (partition, service, product[, suffix]) parameters in the namesake fields, and every call passes the session's partition id, Config.Service, Config.Product (and GetRegionSuffix()) in that order", 4)
+	for _, ctor := range []string{"newPartition", "newSuffixedPartition"} {
+		f := u.Func(pkgApp, ctor)
+		if f == nil {
+			c.unresolved(ctor, "function")
+			continue
+		}
+		c.FuncsAnalysed[shortName(f)] = true
+		// collect stores of parameters into fields (through nested literals)
+		got := map[string]string{}
+		allInstrs(f, func(i ssa.Instruction) {
+			st, ok := i.(*ssa.Store)
+			if !ok {
+				return
+			}
+			if p, isP := st.Val.(*ssa.Parameter); isP {
+				if _, fld, isF := fieldAccess(st.Addr); isF {
+					got[fld] = p.Name()
+				}
+			}
+		})
+		// nested constructor call: newSuffixedPartition may build its embedded defaultPartition through newPartition
+		allInstrs(f, func(i ssa.Instruction) {
+			if g := staticCallee(i); g != nil && g.Name() == "newPartition" && g != f {
+				for k, a := range callOf(i).Args {
+					if p, isP := a.(*ssa.Parameter); isP && k < len(g.Params) {
+						got[map[string]string{"partition": "id"}[g.Params[k].Name()]+map[string]string{"service": "service", "product": "product"}[g.Params[k].Name()]] = p.Name()
+					}
+				}
+			}
+		})
+		want := map[string]string{"id": "partition", "service": "service", "product": "product"}
+		if ctor == "newSuffixedPartition" {
+			want["suffix"] = "suffix"
+		}
+		var probs []string
+		for fld, par := range want {
+			if got[fld] != par {
+				probs = append(probs, fmt.Sprintf("field %s is filled from %q, expected parameter %s", fld, got[fld], par))
+			}
+		}
+		sort.Strings(probs)
+		c.check(len(probs) == 0, ctor+"/fields", u.pos(f.Pos()), "fields filled from namesake parameters", strings.Join(probs, "; "))
+	}
+	// call sites
+	n := 0
+	for _, f := range u.RepoFuncs {
+		if f.Pkg == nil || f.Pkg.Pkg.Path() != pkgApp {
+			continue
+		}
+		allInstrs(f, func(i ssa.Instruction) {
+			g := staticCallee(i)
+			if g == nil || g.Pkg == nil || g.Pkg.Pkg.Path() != pkgApp || (g.Name() != "newPartition" && g.Name() != "newSuffixedPartition") || g.Signature.Recv() != nil {
+				return
+			}
+			if rootFunc(f).Name() == "newSuffixedPartition" {
+				return // nested constructor, checked above
+			}
+			n++
+			var got []string
+			for _, a := range callOf(i).Args {
+				d := accessPath(a)
+				switch {
+				case strings.HasSuffix(d, ".Config.Service") || strings.HasSuffix(d, ".Service"):
+					d = "service"
+				case strings.HasSuffix(d, ".Config.Product") || strings.HasSuffix(d, ".Product"):
+					d = "product"
+				default:
+					if _, isP := a.(*ssa.Parameter); isP {
+						d = "id"
+					} else if cv, isC := resolve(a).(*ssa.Call); isC && methodNameOf(&cv.Call) == "GetRegionSuffix" {
+						d = "suffix"
+					}
+				}
+				got = append(got, d)
+			}
+			want := "id,service,product"
+			if g.Name() == "newSuffixedPartition" {
+				want += ",suffix"
+			}
+			c.check(strings.Join(got, ",") == want, trimPkgDirs(shortName(f))+"/"+g.Name()+"(…)", u.ipos(i), "called with ("+want+")", "called with ("+strings.Join(got, ",")+") instead of ("+want+"): the key ids come out with service and product (or the suffix) in the wrong place — other SDKs and existing key tables use the documented order")
+		})
+	}
+	if n < 2 {
+		c.bad("partition/constructor-calls", "", fmt.Sprintf("expected at least 2 partition constructor calls, found %d", n))
 	}
 }
 
